@@ -532,6 +532,39 @@ Section Dist.
     - apply rn_mono. lra.
   Qed.
 
+  (* ANY generator range [gmin, gmax] with gmin < gmax, any sample in it *)
+  Lemma uniform_real_g_range l u gmin gmax k :
+    F l -> l <= u -> (gmin < gmax)%Z -> (gmin <= k <= gmax)%Z ->
+    l <= uniform_real_g rn l u gmin gmax k <= uniform_real_hi rn l u.
+  Proof.
+    intros Fl Hlu Hg Hk. unfold uniform_real_g, uniform_real_hi.
+    set (m := rn (IZR (gmax - gmin))).
+    assert (Hm : 1 <= m).
+    { unfold m. rewrite <- (rn_id 1 F1). apply rn_mono. apply IZR_le. lia. }
+    assert (Hd : 0 <= rn (u - l)).
+    { rewrite <- (rn_id 0 F0). apply rn_mono. lra. }
+    assert (Fd : F (rn (u - l))) by apply rn_F.
+    set (d := rn (u - l)) in *.
+    assert (Hk1 : 0 <= rn (IZR (k - gmin)) <= m).
+    { split.
+      - rewrite <- (rn_id 0 F0). apply rn_mono. apply IZR_le. lia.
+      - unfold m. apply rn_mono. apply IZR_le. lia. }
+    set (kf := rn (IZR (k - gmin))) in *.
+    assert (Hq : 0 <= rn (kf / m) <= 1).
+    { apply rn_between; try assumption. split.
+      - apply Rmult_le_pos; [lra | apply Rlt_le, Rinv_0_lt_compat; lra].
+      - apply Rmult_le_reg_r with m; [lra |]. unfold Rdiv. rewrite Rmult_assoc, Rinv_l by lra. lra. }
+    set (q := rn (kf / m)) in *.
+    assert (Hp : 0 <= rn (q * d) <= d).
+    { apply rn_between; try assumption. split; nra. }
+    split.
+    - rewrite <- (rn_id l Fl) at 1. apply rn_mono. lra.
+    - apply rn_mono. lra.
+  Qed.
+
+  Lemma uniform_real_g_pcg32 l u k : uniform_real_g rn l u 0 4294967295 k = uniform_real rn l u k.
+  Proof. unfold uniform_real_g, uniform_real. rewrite Z.sub_0_r. reflexivity. Qed.
+
   Lemma uniform_real_old_range l u k :
     F l -> l <= u -> (0 <= k <= 4294967295)%Z ->
     l <= uniform_real_old rn l u k <= uniform_real_old_hi rn l u.
